@@ -64,8 +64,10 @@ func c08NoFail(c c05TimedCase) bool {
 	return true
 }
 
-// c08JudgeTimed applies the bound and cancellation specification to scripted-driver runs.
-func c08JudgeTimed(t *testing.T, rep *hx.Report, orc *hx.Oracle, items []c05TimedItem) {
+// c08JudgeTimed applies the bound and cancellation specification to scripted-driver runs and
+// returns the indices of the runs it reported.
+func c08JudgeTimed(t *testing.T, rep *hx.Report, orc *hx.Oracle, items []c05TimedItem) map[int]bool {
+	reported := map[int]bool{}
 	lines := make([]string, len(items))
 	for i, it := range items {
 		lines[i] = c08BoundsLine(it.C.Min, it.C.Max, it.C.Timeout, it.C.Delay, it.C.Poll, it.C.sigma())
@@ -97,6 +99,7 @@ func c08JudgeTimed(t *testing.T, rep *hx.Report, orc *hx.Oracle, items []c05Time
 		if o.Elapsed > bound {
 			rep.Violate(hx.Violation{Kind: "spec", What: fmt.Sprintf("%s engine returned after %s, bound %s", engine, o.Elapsed, bound),
 				Sig: map[string]string{"site": "engine", "engine": engine, "behaviour": "exceeds-bound"}, Replay: sample})
+			reported[i] = true
 			continue
 		}
 		if c.CancelAt > 0 {
@@ -104,33 +107,41 @@ func c08JudgeTimed(t *testing.T, rep *hx.Report, orc *hx.Oracle, items []c05Time
 			if o.Elapsed > c.CancelAt+b.Cancel {
 				rep.Violate(hx.Violation{Kind: "spec", What: fmt.Sprintf("%s engine cancelled at %s returned at %s, later than poll+delay+σ = %s after the cancellation", engine, c.CancelAt, o.Elapsed, b.Cancel),
 					Sig: map[string]string{"site": "engine", "engine": engine, "behaviour": "late-cancel"}, Replay: sample})
+				reported[i] = true
 				continue
 			}
 			if c08NoFail(c) && o.Elapsed >= c.CancelAt {
 				if !errors.Is(o.Err, context.Canceled) {
 					rep.Violate(hx.Violation{Kind: "spec", What: fmt.Sprintf("%s engine cancelled at %s (still running) returned %q instead of context.Canceled", engine, c.CancelAt, o.Res),
 						Sig: map[string]string{"site": "engine", "engine": engine, "behaviour": "no-cancel-error"}, Replay: sample})
+					reported[i] = true
 					continue
 				}
 				rep.Hit("cancel:returned-context.Canceled-" + c.Engine)
 			}
 		}
 	}
+	return reported
 }
 
 // c08CancelGrid: base runs without failures, each repeated with a cancellation at every instant of
 // a grid across (and a little beyond) its uncancelled duration.
 func c08CancelGrid(t *testing.T, rng *hx.RNG, nBase, grid int) []c05TimedCase {
 	var out []c05TimedCase
-	for len(out) < nBase*grid {
+	hung := 0
+	for len(out) < nBase*grid && hung < 6 {
 		eng := []string{"par", "ser"}[(len(out)/grid)%2]
 		c := c05GenTimed(rng, eng, rng.Chance(1, 3))
 		c.CancelAt = 0
 		if !c08NoFail(c) || !c.DriverOK {
 			continue
 		}
-		base := c05RunTimed(t, c, time.Hour)
-		if base.TimedOut || base.Elapsed <= 0 {
+		base := c05RunTimed(t, c, c05TimedLimit(c))
+		if base.TimedOut {
+			hung++ // reported by the timed stream; no grid can be laid over a run that does not end
+			continue
+		}
+		if base.Elapsed <= 0 {
 			continue
 		}
 		for k := 0; k < grid; k++ {
@@ -215,6 +226,7 @@ func c08WireCases(t *testing.T, rep *hx.Report, orc *hx.Oracle, rng *hx.RNG, per
 		cancelAt time.Duration
 	}
 	var items []item
+	hung := 0
 	modes := []string{"silence", "replies", "flood", "flood+replies", "bursts"}
 	for _, v := range allVariants {
 		for i := 0; i < perVariant; i++ {
@@ -232,8 +244,14 @@ func c08WireCases(t *testing.T, rep *hx.Report, orc *hx.Oracle, rng *hx.RNG, per
 			if strings.HasPrefix(mode, "flood") || mode == "bursts" {
 				flood = c08Flood(rng.U64(), c08Noise(t, rng, c.Cfg), mode == "bursts")
 			}
+			if hung >= 6 {
+				continue
+			}
 			base := c05RunWire(t, c, 0, flood)
 			items = append(items, item{c, base, mode, 0})
+			if base.Run.TimedOut {
+				hung++
+			}
 			if i < 2*len(modes) && !base.Run.TimedOut { // cancellation grid on the first cases of every mode
 				for k := 0; k < grid; k++ {
 					at := (base.Run.Elapsed+c.Poll)*time.Duration(k+1)/time.Duration(grid+1)/time.Microsecond*time.Microsecond + 500*time.Nanosecond
@@ -300,6 +318,8 @@ func c08WireCases(t *testing.T, rep *hx.Report, orc *hx.Oracle, rng *hx.RNG, per
 
 // ---------------------------------------------------------------------------------------------
 // SACK wrapper against a loop-back listener (technique of c20_sack_test.go)
+
+var errC08Watchdog = errors.New("verif: SACK run killed by the harness watchdog")
 
 type c08SackCase struct {
 	Name    string
@@ -398,7 +418,20 @@ func c08RunSack(t *testing.T, c c08SackCase) (elapsed time.Duration, err error, 
 		params := traceroute.TracerouteParams{Hostname: "127.0.0.1", Protocol: "tcp", MinTTL: 1, MaxTTL: c.MaxTTL, Delay: 1,
 			Timeout: c.Timeout, TCPMethod: traceroute.TCPMethod("sack")}
 		start := time.Now()
+		// watchdog: a wrapper that does not return is unblocked by a fatal read error on its source
+		wd := time.AfterFunc(3*(2*c.Timeout+time.Duration(c.MaxTTL)*10*time.Millisecond+time.Second)+10*time.Second, func() {
+			w.mu.Lock()
+			srcs := append([]*bwSource(nil), w.Sources...)
+			w.mu.Unlock()
+			for _, s := range srcs {
+				s.mu.Lock()
+				s.ReadErr = errC08Watchdog
+				s.mu.Unlock()
+				s.kick()
+			}
+		})
 		_, err = traceroute.VerifRunOnce(context.Background(), params, int(port))
+		wd.Stop()
 		elapsed = time.Since(start)
 		close(stop)
 		fwg.Wait()
@@ -537,8 +570,16 @@ func c08Rdns(t *testing.T, rep *hx.Report, rng *hx.RNG, n int) {
 					r := hx.NewRNG(seed + uint64(k))
 					need := time.Duration(r.Range(1, 20000))*time.Millisecond + 77*time.Microsecond
 					if blockAll {
-						<-ctx.Done() // a resolver that never answers but honours its context
-						return nil, ctx.Err()
+						// a resolver that never answers but honours its context; the escape only ends the
+						// bubble when the context never ends (the call is then reported as stalled)
+						esc := time.NewTimer(time.Minute)
+						defer esc.Stop()
+						select {
+						case <-ctx.Done():
+							return nil, ctx.Err()
+						case <-esc.C:
+							return nil, errC08Watchdog
+						}
 					}
 					tm := time.NewTimer(need)
 					defer tm.Stop()
@@ -580,10 +621,11 @@ func TestC08(t *testing.T) {
 	for i := 0; i < env.Scale(6000, 100000); i++ {
 		tcs = append(tcs, c05GenTimed(rng, []string{"par", "ser"}[i%2], i%4 == 0))
 	}
-	c08JudgeTimed(t, rep, orc, c05TimedBatch(t, rep, orc, "timed", tcs))
+	judge := func(items []c05TimedItem) map[int]bool { return c08JudgeTimed(t, rep, orc, items) }
+	c05TimedBatch(t, rep, orc, "timed", tcs, judge)
 
 	grid := c08CancelGrid(t, rng, env.Scale(60, 1000), 20)
-	c08JudgeTimed(t, rep, orc, c05TimedBatch(t, rep, orc, "cancel", grid))
+	c05TimedBatch(t, rep, orc, "cancel", grid, judge)
 
 	c08WireCases(t, rep, orc, rng, env.Scale(10, 100), 20)
 	c08Sack(t, rep, orc, env.Thorough())
